@@ -1,4 +1,5 @@
 import Spake2Verif.Proofs.PropAuxA
+import Spake2Verif.Proofs.ProtoFlowTie
 /-!
 # C01 — Key agreement: matching inputs always yield the same session key
 
@@ -566,5 +567,13 @@ example : ∃ (a a' : Inst toyG) (m s : Bytes),
     (pa ▸ by decide) toyG_arb_empty
   rw [sa, qa] at h2
   exact ⟨a, a', m, s, hA, h1, h2, h3⟩
+
+/-- Tie A: the `start()` / `finish()` reasoned about above are those of the *source* -- the model's state machine
+equals the translation of the method bodies of `_SPAKE2_Base.start`, `compute_outbound_message`, `finish`, the role
+accessors and `_finalize` (flag tests and sets, order of effects, blinding / unblinding element per class, the
+reflection test and its position, `K = (Y* + N·(-pw))·x`, transcript arguments per class), for every group -/
+theorem start_finish_are_the_source {G : Group} :
+    @Inst.start G = ProtoFlowTie.flowStart ∧ @Inst.finish G = ProtoFlowTie.flowFinish :=
+  ⟨ProtoFlowTie.start_is_source, ProtoFlowTie.finish_is_source⟩
 
 end Spake2Verif.C01
